@@ -99,6 +99,8 @@ pub fn round_trip<T: Fam>(v: &T, cfg: SerCfg, known: &Known) -> Outcome {
             match de::<T>(&b) {
                 Ok(back) if back == *v => {}
                 // the same round trip under another root name: the known-finding shapes fail here as they do below
+                Ok(back) if v.without_empty_text_items().map_or(false, |e| e == back) => return Err(format!("ROOT-F5 serialized as {:?}, deserialized as {:?}", b, back)),
+                Ok(back) if v.with_items_split_at_blanks().map_or(false, |e| e == back) => return Err(format!("ROOT-F6 serialized as {:?}, deserialized as {:?}", b, back)),
                 Ok(back) => return Err(format!("ROOT serialized as {:?}, deserialized as {:?}", b, back)),
                 Err(e) => return Err(format!("ROOT serialized as {:?}, deserialization failed: {}", b, e)),
             }
@@ -106,6 +108,8 @@ pub fn round_trip<T: Fam>(v: &T, cfg: SerCfg, known: &Known) -> Outcome {
         });
         match via {
             Ok(Ok(())) => {}
+            Ok(Err(e)) if e.starts_with("ROOT-F5 ") && known.is_open("F5") && v.shape() == Some(Shape::F5) => return Outcome::Known("F5", format!("to_string_with_root: {}", &e[8..])),
+            Ok(Err(e)) if e.starts_with("ROOT-F6 ") && known.is_open("F6") && v.shape() == Some(Shape::F6) => return Outcome::Known("F6", format!("to_string_with_root: {}", &e[8..])),
             Ok(Err(e)) if e.starts_with("ROOT ") => return classify(v, known, format!("to_string_with_root: {}", &e[5..]), None::<&T>),
             Ok(Err(e)) => return Outcome::Bad(format!("serialized as {:?} by to_string, but {}", xml, e)),
             Err(p) => return Outcome::Bad(format!("panic in a serializer entry point: {}", p)),
@@ -121,10 +125,20 @@ pub fn round_trip<T: Fam>(v: &T, cfg: SerCfg, known: &Known) -> Outcome {
     }
 }
 
-fn classify<T: Fam>(v: &T, known: &Known, what: String, _back: Option<&T>) -> Outcome {
+fn classify<T: Fam>(v: &T, known: &Known, what: String, back: Option<&T>) -> Outcome {
+    // F5, second form: an empty text item of a mixed list is written as nothing and is therefore not read back
+    if v.shape() == Some(Shape::F5) && known.is_open("F5") {
+        if let (Some(b), Some(e)) = (back, v.without_empty_text_items()) {
+            if *b == e {
+                return Outcome::Known("F5", what);
+            }
+        }
+    }
     match v.shape() {
-        Some(Shape::F5) if known.is_open("F5") && !what.starts_with("serialization failed") => Outcome::Known("F5", what),
-        Some(Shape::F6) if known.is_open("F6") && !what.starts_with("serialization failed") && what.contains("deserialized as") => Outcome::Known("F6", what),
+        // F5: the empty string in a text position without a default is written as nothing and then missed as a field
+        Some(Shape::F5) if known.is_open("F5") && !what.starts_with("serialization failed") && what.contains("missing field `$") => Outcome::Known("F5", what),
+        // F6: exactly the list whose items were split at their blanks
+        Some(Shape::F6) if known.is_open("F6") && back.is_some() && v.with_items_split_at_blanks().as_ref() == back => Outcome::Known("F6", what),
         _ => Outcome::Bad(what),
     }
 }
